@@ -77,36 +77,88 @@ def delegation_rule(chk, prog, roles):
     loader = _loader(prog)
     ce = ConstEval(prog)
     # ---- DELEG: the wrappers call the matching string entry on the loaded text and return its result --------
-    pairs = []
+    # A wrapper is a public function; the loader call may sit in the wrapper itself or in a static helper the wrapper calls with
+    # constant selectors (one helper serving both wrappers).  The helper is then interpreted per wrapper with those constants.
+    from valib.flow import Flow
+
+    class _Spec:
+        """calls made by f when some parameters are bound to constants (branches decided by them are pruned)"""
+        def __init__(self, consts):
+            self.ce = ConstEval(prog, consts)
+            self.calls = []
+        def copy(self, s): return s
+        def join(self, a, b): return a
+        def equal(self, a, b): return True
+        def widen(self, o, n): return n
+        def decl(self, vd, s):
+            for c in kids(vd):
+                s = self.eval(c, s)
+            return s
+        def eval(self, e, s):
+            e0 = strip(e)
+            if not e0:
+                return s
+            if e0.get("kind") == "ConditionalOperator":
+                c = self.ce.try_eval(strip(kids(e0)[0]))
+                self.eval(kids(e0)[0], s)
+                if c is not None:
+                    return self.eval(kids(e0)[1] if c else kids(e0)[2], s)
+            for c in kids(e0):
+                self.eval(c, s)
+            if e0.get("kind") == "CallExpr" and callee_name(e0) in lib and not any(e0 is x for x in self.calls):
+                self.calls.append(e0)
+            return s
+        def assume(self, e, t, s):
+            v = self.ce.try_eval(strip(e))
+            return None if (v is not None and bool(v) != t) else s
+        def ret(self, n, s): pass
+
+    units = []      # (wrapper, body function, constants bound in the body, body parameter -> wrapper expression text)
     for fn, f in sorted(lib.items()):
         if not any(x.get("kind") == "CallExpr" and callee_name(x) == loader for x in walk(prog.body(f))):
             continue
-        ps = [p["name"] for p in prog.params(f)]
-        counting = "int *" in [qtype(p) for p in prog.params(f)]
+        callers = [(g, c) for g, gf in lib.items() for c in walk(prog.body(gf)) if c.get("kind") == "CallExpr" and callee_name(c) == fn]
+        if f.get("storageClass") == "static" and callers:
+            for g, c in callers:
+                hp = prog.params(f)
+                consts = {p["name"]: ce.try_eval(strip(a, casts=True)) for p, a in zip(hp, call_args(c)) if ce.try_eval(strip(a, casts=True)) is not None}
+                amap = {p["name"]: expr_str(strip(a, casts=True)) for p, a in zip(hp, call_args(c))}
+                units.append((g, fn, consts, amap, c))
+        else:
+            units.append((fn, fn, {}, {p["name"]: p["name"] for p in prog.params(f)}, None))
+    pairs = []
+    for wname, fn, consts, amap, hcall in units:
+        w, f = lib[wname], lib[fn]
+        wps = [p["name"] for p in prog.params(w)]
+        counting = "int *" in [qtype(p) for p in prog.params(w)]
         want = [e for e in roles.direct_entries if ("int *" in [qtype(p) for p in prog.params(prog.fn(e))]) == counting]
-        calls = [x for x in walk(prog.body(f)) if x.get("kind") == "CallExpr" and callee_name(x) in roles.direct_entries]
-        key = "DELEG/%s" % fn
+        spec = _Spec(consts)
+        Flow(spec).function(prog, f, ())
+        calls = [x for x in spec.calls if callee_name(x) in roles.direct_entries]
+        key = "DELEG/%s" % wname
         if len(calls) != 1 or callee_name(calls[0]) not in want:
-            chk.bad("DELEG", key, loc_str(f), "%s delegates to the %s string entry point" % (fn, "counting" if counting else "plain"),
+            chk.bad("DELEG", key, loc_str(w), "%s delegates to the %s string entry point" % (wname, "counting" if counting else "plain"),
                     "calls %s" % [callee_name(x) for x in calls])
             continue
         call = calls[0]
         pairs.append((fn, callee_name(call)))
         a = call_args(call)
         # the wrapper does nothing else with the library: no shortcut through another entry point
-        extra = sorted({callee_name(x) for x in walk(prog.body(f)) if x.get("kind") == "CallExpr" and callee_name(x) in lib} -
-                       {loader, callee_name(call)})
-        chk.require(not extra, "DELEG", key + "/only", loc_str(f),
-                    "%s calls no library function besides the loader and its string counterpart (every call takes the same route)" % fn,
+        extra = sorted({callee_name(x) for x in spec.calls} - {loader, callee_name(call)})
+        if wname != fn:
+            extra += sorted({callee_name(x) for x in walk(prog.body(w)) if x.get("kind") == "CallExpr" and callee_name(x) in lib} - {fn})
+        chk.require(not extra, "DELEG", key + "/only", loc_str(w),
+                    "%s calls no library function besides the loader and its string counterpart (every call takes the same route)" % wname,
                     "also calls %s" % extra)
-        # ... and the delegation is unconditional: the call is not nested in a branch on the wrapper's own arguments
+        # ... and the delegation does not depend on the wrapper's own arguments (selectors bound to constants are decided already)
         cond_on_args = []
+        fps = [p["name"] for p in prog.params(f) if p["name"] not in consts]
         for m, parents in walk_with_parents(prog.body(f)):
             if m is call:
                 for pnode in parents:
                     if pnode.get("kind") in ("IfStmt", "ConditionalOperator", "SwitchStmt", "WhileStmt", "ForStmt"):
                         cnd = (pnode.get("inner") or [None])[2 if pnode["kind"] == "ForStmt" else 0]
-                        if cnd and any(d.get("kind") == "DeclRefExpr" and ref_name(d) in ps for d in walk(cnd)):
+                        if cnd and any(d.get("kind") == "DeclRefExpr" and ref_name(d) in fps for d in walk(cnd)):
                             cond_on_args.append(pnode)
         chk.require(not cond_on_args, "DELEG", key + "/unconditional", loc_str(call),
                     "the call of the string entry point does not depend on the wrapper's own arguments", "nested in %s on an argument" % [x.get("kind") for x in cond_on_args])
@@ -116,31 +168,37 @@ def delegation_rule(chk, prog, roles):
             if m.get("kind") == "VarDecl" and kids(m) and strip(kids(m)[-1], casts=True).get("kind") == "CallExpr" and \
                     callee_name(strip(kids(m)[-1], casts=True)) == loader:
                 txtvar = m["name"]
-        passed = [expr_str(strip(x, casts=True)) for x in a]
-        expect = [ps[0], txtvar] + [p for p in ps[2:]]
+        passed = [amap.get(expr_str(strip(x, casts=True)), expr_str(strip(x, casts=True))) for x in a]
+        expect = [wps[0], txtvar] + [p for p in wps[2:]]
         chk.require(passed == expect, "DELEG", key + "/args", loc_str(call),
-                    "%s passes its instance, the loaded text and its remaining arguments unchanged" % fn, "passes %s, expected %s" % (passed, expect))
-        # the delegate's result is what the wrapper returns on its last return
-        resvar = None
-        for m, parents in walk_with_parents(prog.body(f)):
-            if m is call:
-                for p in reversed(parents):
-                    if p.get("kind") == "VarDecl":
-                        resvar = p["name"]
-                        break
-                    if p.get("kind") == "BinaryOperator" and p.get("opcode") == "=" and ref_name(strip(kids(p)[0], casts=True)):
-                        resvar = ref_name(strip(kids(p)[0], casts=True))
-                        break
-                    if p.get("kind") == "ReturnStmt":
-                        resvar = "<direct>"
-                        break
-        rets = [m for m in walk(prog.body(f)) if m.get("kind") == "ReturnStmt" and kids(m)]
-        last = rets[-1] if rets else None
-        okr = resvar == "<direct>" or (last is not None and ref_name(strip(kids(last)[0], casts=True)) == resvar)
-        others = [r for r in rets if r is not last and ce.try_eval(strip(kids(r)[0], casts=True)) in (0,)]
-        chk.require(okr and not others, "DELEG", key + "/result", loc_str(last) if last else loc_str(f),
-                    "%s returns the result of the string entry point (and never EXIT_SUCCESS on its own)" % fn,
+                    "%s passes its instance, the loaded text and its remaining arguments unchanged" % wname, "passes %s, expected %s" % (passed, expect))
+        # the delegate's result is what the body returns on its last return, and the wrapper returns the body's result
+        def returns_result_of(g, c):
+            resvar = None
+            for m, parents in walk_with_parents(prog.body(g)):
+                if m is c:
+                    for p in reversed(parents):
+                        if p.get("kind") == "VarDecl":
+                            resvar = p["name"]
+                            break
+                        if p.get("kind") == "BinaryOperator" and p.get("opcode") == "=" and ref_name(strip(kids(p)[0], casts=True)):
+                            resvar = ref_name(strip(kids(p)[0], casts=True))
+                            break
+                        if p.get("kind") == "ReturnStmt":
+                            resvar = "<direct>"
+                            break
+            rets = [m for m in walk(prog.body(g)) if m.get("kind") == "ReturnStmt" and kids(m)]
+            last = rets[-1] if rets else None
+            okr = resvar == "<direct>" or (last is not None and ref_name(strip(kids(last)[0], casts=True)) == resvar)
+            others = [r for r in rets if r is not last and ce.try_eval(strip(kids(r)[0], casts=True)) in (0,)]
+            return okr and not others, last
+        okr, last = returns_result_of(f, call)
+        if okr and wname != fn:
+            okr, last = returns_result_of(w, hcall)
+        chk.require(okr, "DELEG", key + "/result", loc_str(last) if last else loc_str(w),
+                    "%s returns the result of the string entry point (and never EXIT_SUCCESS on its own)" % wname,
                     "returns %s" % (expr_str(kids(last)[0]) if last else "nothing"))
+    pairs = sorted(set(pairs))
     chk.floor("file wrappers", len(pairs), 2)
     chk.analysed["delegation"] = pairs
     return pairs
